@@ -338,3 +338,19 @@ def run(ctx):
         "samples": acc.samples[:2],
         "exhaustive": True,
     }
+
+
+def replay(ctx, data):
+    """Re-run the reported (history, fallback content, route) for all tips."""
+    d = data["first"]
+    h = d["history"]
+
+    class One(fw.History):
+        def closed_subsets(self):
+            return [frozenset(d["fallback_content"])]
+    one = One(h["dag"], h["trees"], h["ghost_parent_at"])
+    acc = par.Acc()
+    check_history(one, [d["route"]], acc)
+    sigs = sorted({s for s, _x in acc.violations})
+    print("  signatures on replay:", sigs)
+    return data["signature"] not in sigs
